@@ -31,11 +31,11 @@ func main() {
 	}
 	switch os.Args[1] {
 	case "check":
-		os.Exit(cmdCheck(os.Args[2:]))
+		exit(cmdCheck(os.Args[2:]))
 	case "vc":
-		os.Exit(cmdVC(os.Args[2:]))
+		exit(cmdVC(os.Args[2:]))
 	case "replay":
-		os.Exit(cmdReplay(os.Args[2:]))
+		exit(cmdReplay(os.Args[2:]))
 	case "ext":
 		prog, _, err := setup(envOr("GVC_REPO", "/repo"), envOr("GVC_VERIF", "/verif"))
 		if err != nil {
@@ -237,4 +237,12 @@ func cmdVC(args []string) int {
 		return 1
 	}
 	return 0
+}
+
+// exit removes the per-process scratch directory (solver query files of races still in flight).
+func exit(code int) {
+	if tempRoot != "" {
+		os.RemoveAll(tempRoot)
+	}
+	os.Exit(code)
 }
